@@ -542,12 +542,12 @@ func compatible(a, b string) bool {
 func init() {
 	core.Register(&core.Property{
 		ID: "C16", Engine: "G", Level: "exploration", Bubble: true,
-		Rule: "each run: a real BlockManager.Run with real BlockDownloaders (ConcurrentBlockRequests 1-4, request delay 1/5/30 s) serves 1-3 queued requests from simulated sources; at every quiescent point the tape picks one action among: a source starts its handler, hands over the next transaction, ends its stream, cuts it, drops before/after start (onStop), serves a wrong block, the requester aborts, shutdown, or the clock advances (1 s .. 1 h, firing the start, download, cancel-poll and request-delay timers), or a goroutine held at one of the code's marked scheduling points (verif hook SimYield: a stalled goroutine fault, planned from the tape per site and arrival) is released; cancellation is answered started/not-started by the source's real state; then a fault-free epilogue with honest sources; non-trivial = every run; distinct = distinct hash of the canonical event log (the sequence of chosen actions) Engine F phase (second search phase, instrumented build, see DESIGN.md 2.4): the same actions with Run, Cancel, Stop, HandleBlock, cancelDownloaders, onDownloaderCompleted and the manager loop interleaved at statement granularity by the tape's scheduler (mutexes are TryLock loops, so a goroutine can be parked inside a critical section), tape-chosen stalls and select poll order, pumped clock",
+		Rule: "one run in three is the full-stack world: a real BlockManager asks a real NodeManager (nodes attached through the verif hook) which picks real BitcoinNodes connected to scripted peers over simulated connections; 1-2 blocks on top of genesis, 1-3 peers that announce the chain after verification and answer getdata with the block, a different block, the first part of the block and then silence, or nothing; the driver delivers pending bytes in tape-chosen chunks between requester aborts, shutdown, peer connection closes and clock steps; then a fault-free epilogue with a fresh honest peer and growing waits; same oracles (one terminal signal, complete only after the block was fully processed, registry bound, BlockManager.Run / node Runs / NodeManager.Wait return, no goroutine left blocked). Otherwise: each run: a real BlockManager.Run with real BlockDownloaders (ConcurrentBlockRequests 1-4, request delay 1/5/30 s) serves 1-3 queued requests from simulated sources; at every quiescent point the tape picks one action among: a source starts its handler, hands over the next transaction, ends its stream, cuts it, drops before/after start (onStop), serves a wrong block, the requester aborts, shutdown, or the clock advances (1 s .. 1 h, firing the start, download, cancel-poll and request-delay timers), or a goroutine held at one of the code's marked scheduling points (verif hook SimYield: a stalled goroutine fault, planned from the tape per site and arrival) is released; cancellation is answered started/not-started by the source's real state; then a fault-free epilogue with honest sources; non-trivial = every run; distinct = distinct hash of the canonical event log (the sequence of chosen actions) Engine F phase (second search phase, instrumented build, see DESIGN.md 2.4): the same actions with Run, Cancel, Stop, HandleBlock, cancelDownloaders, onDownloaderCompleted and the manager loop interleaved at statement granularity by the tape's scheduler (mutexes are TryLock loops, so a goroutine can be parked inside a critical section), tape-chosen stalls and select poll order, pumped clock",
 		Real: blockReal, Stub: blockStub,
 		Assumptions: []string{"interleavings are controlled at the granularity of source/requester/timer actions; between two quiescent points woken goroutines run in the Go runtime's order and a select with several ready cases is resolved by the runtime (not replayable from the tape); the oracles are order independent",
 			"a requester stops listening when shutdown is signalled, as NodeManager.synchronizeBlocks does"},
-		FaultKinds:   []string{"schedule:goroutine-stalled", "source:not-available", "source:wrong-block", "source:drop-before-start", "source:stream-cut", "source:drop-mid-block", "request:abort", "shutdown", "source:drop-during-shutdown", "source:drop-after-cancel", "stalled-goroutine-released"},
-		ProbeNames:   []string{"terminal:completed", "terminal:value:Block Aborted", "abort-acknowledged", "abort-and-shutdown-same-instant", "two-actions-same-instant", "handler-start-and-shutdown-same-instant", "run-with-stalled-goroutines"},
+		FaultKinds:   []string{"source:stream-stalls-mid-block", "source:request-ignored", "source:connection-closed", "fragmentation", "schedule:goroutine-stalled", "source:not-available", "source:wrong-block", "source:drop-before-start", "source:stream-cut", "source:drop-mid-block", "request:abort", "shutdown", "source:drop-during-shutdown", "source:drop-after-cancel", "stalled-goroutine-released"},
+		ProbeNames:   []string{"full-stack-block-served", "full-stack-terminal:completed", "full-stack-terminal:value:Block Aborted", "two-successful-downloads-of-one-block", "two-successful-downloads-with-another-request-queued", "terminal:completed", "terminal:value:Block Aborted", "abort-acknowledged", "abort-and-shutdown-same-instant", "two-actions-same-instant", "handler-start-and-shutdown-same-instant", "run-with-stalled-goroutines"},
 		Run:          runC16,
 		QuickSeconds: 20, ThoroughSeconds: 700, MinRuns: 300, BatchSize: 25, RunTimeoutSeconds: 300,
 		FQuickSeconds: 15, FThoroughSeconds: 500,
